@@ -16,12 +16,15 @@ THEOREMS = ["WM.C03.snapshot_partial", "WM.C03.snapshot_full_false", "WM.C03.fre
             "WM.C03.refresh_eq_fresh", "WM.C03.up_to_date_partial", "WM.C03.up_to_date_full_false",
             "WM.C03.safe_freshNames", "WM.C03.holds_at", "WM.FS.open_linearizable",
             "WM.C03.refresh_interleaved", "WM.FS.refresh_linearizable", "WM.FS.searcher_refresh_linearizable",
-            "WM.C03.same_is_fresh"]
+            "WM.C03.same_is_fresh", "WM.C03.snapshot", "WM.C03.snapshot_after_commit",
+            "WM.FS.eagerHandles_fresh", "WM.FS.readerOK_fresh"]
 PARTIAL = {
-    "WM.C03.snapshot_partial": "hypothesis EagerHandles (every file the reader reads was opened at construction); "
-                               "false for loose (compound=False) segments, whose column / vector files "
-                               "W3PerDocReader opens lazily: snapshot_full_false is the Lean witness, "
-                               "the held-searcher stream shows it on the real code",
+    "WM.C03.snapshot_partial": "the general lemma, for any reader value with hypothesis EagerHandles; C03.snapshot is the "
+                               "full statement for the readers ix.reader()/refresh() really build (every file of every segment "
+                               "opened by the constructor since the round-3 fix of W3PerDocReader: FS.eagerHandles_fresh); "
+                               "snapshot_full_false stays as the Lean witness of why a lazily opening reader is not a snapshot. "
+                               "Which files the running constructor opens is observed per run (EagerTrace on every held "
+                               "reader's storage trace; the step-machine requests carry the observed file classes)",
     "WM.C03.refresh_eq_fresh": "this statement evaluates refresh on one directory (atomic); the interleaved versions are "
                                "C03.refresh_interleaved / FS.refresh_linearizable (ix.reader(reuse) step by step with recycling "
                                "and retry) and FS.searcher_refresh_linearizable (up-to-date check + recycling open). "
@@ -47,6 +50,9 @@ ASSUMPTIONS = [
     "single-process schedules: reader steps run between two storage events of the writer, not inside one (true "
     "pre-emption inside a read call is only soaked with threads in the thorough tier)",
     "a segment id names one immutable set of files; generations are never re-used (C04.generation)",
+    "the file set of a loose segment is only recorded in the directory: the constructor finds column/vector files in a "
+    "listing, the model takes them from the TOC's SegRef.files; they agree unless the listing is taken while another "
+    "process is half-way through clean_files' deletions of that very segment (true pre-emption between two os.remove calls)",
 ]
 TRUSTED = ["harness-side TracingFileStorage / TracingRamStorage subclasses"]
 MANIFEST = {
@@ -58,9 +64,9 @@ MANIFEST = {
                   "linearizable at its TOC read; up_to_date() <-> no newer generation. Tied to the code by comparing the Lean mirror of "
                   "_reader(reuse) with the real one on every refresh and by probing held/fresh/refreshed searchers at "
                   "every storage-event boundary of real commits in 8 storage configurations.",
-    "level_note": "partial: OS handle semantics assumed; snapshot theorem needs EagerHandles, which loose segments violate "
-                  "(recorded finding); up_to_date needs a non-empty index (recorded finding). Thread pre-emption inside "
-                  "one read call is not modelled.",
+    "level_note": "partial: OS handle semantics assumed; up_to_date needs a non-empty index (recorded finding). Loose segments "
+                  "opened their column/vector files lazily (repaired in round 3; snapshot no longer needs EagerHandles). Thread "
+                  "pre-emption inside one read call is not modelled.",
     "technique": "machine-checked proof in Lean 4 over an executable model + differential correspondence + schedule enumeration",
 }
 
@@ -783,11 +789,56 @@ def _entries(st, ram):
     return res
 
 
+_CTOR_ORDER = None
+
+
+def _file_class(name):
+    """coarse class of a segment file: the per-document files (columns, vectors) form one group"""
+    if name.endswith(".col") or name.endswith(".vps"):
+        return "perdoc"
+    return name[name.rfind("."):]
+
+
+def _ctor_order():
+    """Which classes of segment files a `SegmentReader` constructor opens, and in which order: read
+    off the running code (one tiny compound and one tiny loose index on a tracing storage), so that
+    nothing about the codec's laziness is hard-coded in the step-machine requests."""
+    global _CTOR_ORDER
+    if _CTOR_ORDER is None:
+        from whoosh import index
+        order = []
+        for compound in (True, False):
+            st = T.TracingRamStorage()
+            st.tracer.enabled = False
+            index.FileIndex.create(st, T.make_schema(), IX)
+            ix = index.FileIndex(st, indexname=IX)
+            w = ix.writer(compound=compound)
+            w.add_document(k=u"k0", t=u"alfa bravo", g=u"alfa", n=1)
+            w.commit(merge=False)
+            st.tracer.events[:] = []
+            st.tracer.enabled = True
+            r = ix.reader()
+            st.tracer.enabled = False
+            r.close()
+            for ev in st.tracer.events:
+                if ev[1] == "open" and not ev[2].startswith("_"):
+                    c = _file_class(ev[2])
+                    if c not in order:
+                        order.append(c)
+        _CTOR_ORDER = order
+    return _CTOR_ORDER
+
+
 def _order_files(info):
+    """The files of each segment that the reader's constructor opens, in the order it opens them
+    (within a class: by name)."""
     gen, sid, segs = info
+    order = _ctor_order()
+
     def key(n):
-        return (0 if n.endswith(".trm") else 1 if n.endswith(".pst") else 2, n)
-    return (gen, sid, [(s, c, sorted(fl, key=key), d) for s, c, fl, d in segs])
+        return (order.index(_file_class(n)), n)
+    return (gen, sid, [(s, c, sorted((f for f in fl if _file_class(f) in order), key=key), d)
+                       for s, c, fl, d in segs])
 
 
 def _race_job(job):
